@@ -356,6 +356,123 @@ def judge_config_grid(ck, case, lin, lin_valid, outs):
     return n_fail
 
 
+# ----------------------------------------------------------------- ONE ValidationConfig object re-used over several calls
+DECLARES = {"none": None, "lineage-only": {"lineage": "lin"}, "tracklet-only": {"tracklet": "trk"},
+            "tracklet,lineage": {"tracklet": "trk", "lineage": "lin"}, "lineage,tracklet": {"lineage": "lin", "tracklet": "trk"}}
+
+
+def _reuse_call(step, cfg):
+    import geff
+    import geff_spec
+    import zarr
+    from geff.core_io import write_arrays
+    from geff.core_io._base_read import read_to_memory
+    from geff.validate.data import validate_data
+
+    case = step["case"]
+    tnp = DECLARES[step["declares"]]
+    # both id properties are stored; what the metadata DECLARES (and in which key order) varies
+    names = ["lin", "trk"] if step["declares"].startswith("lineage") else ["trk", "lin"]
+    md = geff_spec.GeffMetadata(
+        geff_version="1.0.0", directed=True,
+        node_props_metadata={k: geff_spec.PropMetadata(identifier=k, dtype="int64") for k in names},
+        edge_props_metadata={}, track_node_props=None if tnp is None else dict(tnp))
+    vals = {"trk": np.asarray(case["labels"], dtype=np.int64), "lin": np.asarray(step["lineage_labels"], dtype=np.int64)}
+    g = {"metadata": md, "node_ids": np.asarray(case["nodes"], dtype=np.int64),
+         "edge_ids": np.asarray(case["edges"], dtype=np.int64).reshape(-1, 2),
+         "node_props": {k: {"values": vals[k], "missing": None} for k in names}, "edge_props": {}}
+
+    def run():
+        if step["via"] == "validate_data":
+            return validate_data(g, cfg)
+        st = zarr.storage.MemoryStore()
+        write_arrays(st, g["node_ids"], g["node_props"], g["edge_ids"], {}, md, structure_validation=False)
+        arg = step.get("node_props")          # None = all, or a list excluding an id property
+        if step["via"] == "read_to_memory":
+            return read_to_memory(st, structure_validation=False, node_props=arg, data_validation=cfg)
+        return geff.read(st, structure_validation=False, node_props=arg, data_validation=cfg, backend="networkx")
+    try:
+        run()
+        return {"o": "ok"}
+    except ValueError as ex:
+        head = str(ex.args[0]).split("\n")[0] if ex.args else ""
+        r = {"o": "ValueError", "head": head}
+        if head.startswith("Found invalid tracklets") and len(ex.args) == 2:
+            r["ids"] = [e["t"] for e in parse_errors(ex.args[1].split("\n"))]
+        return r
+    except Exception as ex:  # noqa: BLE001
+        return {"o": type(ex).__name__}
+
+
+def impl_config_reuse(item):
+    from geff.validate.data import ValidationConfig
+
+    shared = ValidationConfig(**item["config"])
+    out = []
+    for st in item["steps"]:
+        before = shared.model_dump()
+        r_shared = _reuse_call(st, shared)
+        after = shared.model_dump()
+        fresh = ValidationConfig(**item["config"])
+        r_fresh = _reuse_call(st, fresh)
+        out.append({"shared": r_shared, "fresh": r_fresh, "config_before": before, "config_after": after,
+                    "fresh_config_after": fresh.model_dump()})
+    return out
+
+
+def config_reuse_items(rng, pool, n):
+    vias = ["validate_data", "read_to_memory", "geff.read"]
+    traps = ["lineage-only", "none", "lineage-only"]
+    for j in range(n):
+        steps = []
+        k = 2 + j % 3
+        for i in range(k):
+            c = rng.choice(pool)
+            good, _bad = lineage_labellings(c, f"reuse:{j}:{i}")
+            if i == 0:
+                declares = traps[j % 3]
+            else:
+                declares = ["tracklet-only", "tracklet,lineage", "lineage,tracklet"][(j + i) % 3]
+            step = {"via": vias[(j + i) % 3] if i else vias[(j // 3) % 3], "declares": declares,
+                    "case": {"nodes": c["nodes"], "labels": c["labels"], "edges": c["edges"]}, "lineage_labels": good}
+            if i == 0 and j % 5 == 4 and step["via"] != "validate_data":
+                step["declares"] = "tracklet,lineage"     # declared but NOT loaded: the tracklet property is excluded
+                step["node_props"] = ["lin"]
+            steps.append(step)
+        yield {"config": {"tracklet": True, "lineage": j % 2 == 0}, "steps": steps}
+
+
+def judge_config_reuse(ck, item, outs):
+    ck.case(item, f"config_reuse:steps={len(item['steps'])}:first={item['steps'][0]['declares']}"
+            + (":excluded" if item["steps"][0].get("node_props") else ""), nontrivial=True)
+    for k, (st, r) in enumerate(zip(item["steps"], outs)):
+        for before, after in ((r["config_before"], r["config_after"]),
+                              ({**{f: False for f in ("graph", "sphere", "ellipsoid", "lineage", "tracklet")}, **item["config"]}, r["fresh_config_after"])):
+            if before != after:
+                ck.fail("C13:validate-modifies-config",
+                        f"{st['via']} changed the caller's ValidationConfig from {before} to {after} (step {k}, geff declaring {st['declares']})",
+                        item, r, "config unchanged")
+                break
+        sig = lambda o: (o["o"], o.get("head"), o.get("ids"))  # noqa: E731
+        if sig(r["shared"]) != sig(r["fresh"]):
+            ck.fail("C13:config-reuse-changes-verdict",
+                    f"step {k} ({st['via']}, geff declaring {st['declares']}): the re-used config object gives {r['shared']}, "
+                    f"a fresh equal config gives {r['fresh']}", item, r, r["fresh"])
+        excluded = st.get("node_props") is not None
+        declared = "tracklet" in st["declares"]
+        t_valid, t_bad = spec_oracle(st["case"]["nodes"], st["case"]["labels"], st["case"]["edges"])
+        if excluded:
+            ok = r["fresh"]["o"] in ("KeyError", "ok")          # declared but not loaded: today's reader raises KeyError
+        elif declared and not t_valid:
+            ok = r["fresh"]["o"] == "ValueError" and r["fresh"].get("head") == "Found invalid tracklets:" and r["fresh"].get("ids") == t_bad
+        else:
+            ok = r["fresh"]["o"] == "ok"
+        if not ok:
+            ck.fail("C13:config-history-fresh-verdict",
+                    f"step {k} ({st['via']}, declaring {st['declares']}) with a fresh config gave {r['fresh']}; tracklets valid={t_valid} bad={t_bad}",
+                    item, r, {"valid": t_valid, "bad": t_bad})
+
+
 # ----------------------------------------------------------------- generators
 def set_partitions(n):
     def rec(i, cur, mx):
@@ -513,6 +630,17 @@ def corpus():
         yield json.loads(f.read_text())
 
 
+def forked_map(func, items):
+    """always in forked workers, also for few items"""
+    import multiprocessing as mp
+
+    items = list(items)
+    if not items:
+        return []
+    with mp.get_context("fork").Pool(min(16, len(items))) as pool:
+        return pool.map(func, items, chunksize=max(1, len(items) // 64))
+
+
 # ----------------------------------------------------------------- the check
 def to_req(c):
     return {"nodes": [str(x) for x in c["nodes"]], "labels": [str(x) for x in c["labels"]],
@@ -607,11 +735,14 @@ def run(ck: common.Check):
                "corruptions (a quarter with a missing mask) + a sample of the in-domain cases through validate_data under all 16 "
                "configs that enable tracklet on geffs declaring tracklet AND lineage ids, x {valid, corrupted} lineage labelling x both KEY "
                "ORDERS of track_node_props; every case that goes through validate_data / a store rotates over the layouts "
-               "{tracklet only; tracklet,lineage; lineage,tracklet} of track_node_props; non-trivial = at least one edge or two ids; distinct = "
+               "{tracklet only; tracklet,lineage; lineage,tracklet} of track_node_props; + config-reuse histories: ONE ValidationConfig "
+               "object handed to 2-4 validate_data / read_to_memory / geff.read calls, the first on a geff that declares no "
+               "tracklet property (none / lineage only / tracklet excluded from the load), the later ones on geffs declaring "
+               "tracklets: model_dump() unchanged after every call, verdict equal to that of a fresh equal config and to the oracle; non-trivial = at least one edge or two ids; distinct = "
                "distinct canonical JSON")
     corpus_all = list(corpus())
     grid_corpus = [c for c in corpus_all if "lineage_labels" in c]     # regression inputs of the all-configs grid
-    cases = [c for c in corpus_all if "lineage_labels" not in c]
+    cases = [c for c in corpus_all if "lineage_labels" not in c and "steps" not in c]
     n_corpus = len(corpus_all)
     for n in range(0, 5):
         cases.extend(exhaustive(n))
@@ -658,7 +789,8 @@ def run(ck: common.Check):
 
     # the same labellings through validate_data (dispatch) and through a store + read_to_memory
     sample = [c for i, c in enumerate(cases) if c.get("missing") is None and in_domain(c) and c["nodes"] and i % 17 == 0]
-    n_vd = n_store = 0
+    n_vd = 0
+    store_items = []
     for j, c in enumerate(sample):
         s_valid, _ = spec_oracle(c["nodes"], c["labels"], c["edges"])
         r = impl_via_validate_data(c)
@@ -667,12 +799,13 @@ def run(ck: common.Check):
             ck.fail("C13:validate_data-dispatch", f"validate_data(tracklet=True) gave {r}, definition says valid={s_valid}",
                     c, r, {"valid": s_valid})
         if j % (8 if ck.quick else 3) == 0:
-            n_store += 1
-            r2 = impl_via_store(c)
-            want = "ok" if s_valid else "ValueError"
-            if r2 != want:
-                ck.fail("C13:read_to_memory", f"read_to_memory(data_validation=tracklet) gave {r2}, expected {want}",
-                        c, r2, want)
+            store_items.append((c, s_valid))
+    # stores are only touched in forked workers (zarr's event loop must not be running in the parent when it forks)
+    n_store = len(store_items)
+    for (c, s_valid), r2 in zip(store_items, forked_map(impl_via_store, [c for c, _ in store_items])):
+        want = "ok" if s_valid else "ValueError"
+        if r2 != want:
+            ck.fail("C13:read_to_memory", f"read_to_memory / geff.read(data_validation=tracklet) gave {r2}, expected {want}", c, r2, want)
     # every config that enables tracklet (16 combinations of the other flags), both id properties declared,
     # {valid, invalid} tracklets (the case) x {valid, invalid} lineages
     from harness.corr.C12 import lineage_oracle
@@ -702,6 +835,11 @@ def run(ck: common.Check):
         grid_hist[k] = grid_hist.get(k, 0) + 16
         judge_config_grid(ck, c, lin, lv, outs)
     ck.extra["validate_data_all_16_configs_with_tracklet"] = grid_hist
+    # ONE ValidationConfig object re-used over 2-4 calls on geffs with different declarations
+    reuse = [c for c in corpus_all if "steps" in c] + list(config_reuse_items(ck.rng, pool, 60 if ck.quick else 2500))
+    for item, outs in zip(reuse, forked_map(impl_config_reuse, reuse)):
+        judge_config_reuse(ck, item, outs)
+    ck.extra["config_reuse_histories"] = len(reuse)
     ck.extra["through_validate_data"] = n_vd
     ck.extra["through_store_and_read_to_memory"] = n_store
     ck.extra["corpus_cases"] = n_corpus
@@ -721,6 +859,23 @@ def run(ck: common.Check):
 
 def replay(rp):
     c = rp["case"]
+    if "steps" in c:
+        outs = impl_config_reuse(c)
+
+        class R2:
+            def __init__(self):
+                self.f = []
+
+            def case(self, *a, **k):
+                pass
+
+            def fail(self, key, what, *a, **k):
+                self.f.append((key, what))
+        r2 = R2()
+        judge_config_reuse(r2, c, outs)
+        print(json.dumps({"case": c, "impl": outs, "failures": r2.f}, default=str))
+        print("REPLAY: property holds on this input" if not r2.f else "REPLAY: property FAILS on this input")
+        return 0 if not r2.f else 1
     if "cfg_bits" in c:
         from harness.corr.C12 import lineage_oracle
 
